@@ -264,6 +264,21 @@ let () =
              | MOk p' -> ("OK", equiv_by_name (mlp_to_nlp p) (mlp_to_nlp p'))
              | MErr e -> ("ERR:" ^ reason_name e, false) | MFlt -> ("FLT", false) | MFuel -> ("FUEL", false)) in
            Printf.printf "A %s %s %s %s %s\n" id (if wc then "1" else "0") (if sn then "1" else "0") tag (string_of_bool eqv)
+         | "esolver", rl :: rm :: bv :: sv :: st :: pv :: wv :: args ->
+           (* IO/Esolver.esolver on an argument list (av[1..], %-encoded) in an environment: does the file read as LP / as MPS,
+              return value of the basis load, of the solver, status, return values of print_sol and write_basis.
+              answer: USAGE | VERSION | FAULT | RUN <L|M> <exit> <first line | -> <basis written 0|1> <sol file | -> <basis file | -> *)
+           let zi s = coqz_of_z (BZ.of_string s) in
+           let env = { v_read_lp = (rl = "1"); v_read_mps = (rm = "1"); v_basis = zi bv; v_solver = zi sv; v_status = zi st; v_printsol = zi pv; v_writebasis = zi wv } in
+           let av = List.map (fun a -> chars_of_string (dec a)) args in
+           let so o = (match o with Some a -> enc (string_of_chars a) | None -> "-") in
+           (match esolver av env with
+            | RUsage -> Printf.printf "A %s USAGE\n" id
+            | RVersion -> Printf.printf "A %s VERSION\n" id
+            | RFault -> Printf.printf "A %s FAULT\n" id
+            | RRun (c, o) ->
+              Printf.printf "A %s RUN %s %s %s %s %s %s\n" id (match the_ftype c with FLp -> "L" | FMps -> "M" | FFault -> "?")
+                (BZ.to_string (z_of_coqz o.o_exit)) (so o.o_line) (if o.o_basis then "1" else "0") (so c.e_sol) (so c.e_wbasis))
          | "parseline", [ v; l ] ->
            (match parse_line (v = "1") (chars_of_string (dec l)) with
             | None -> Printf.printf "A %s NONE\n" id
